@@ -248,6 +248,18 @@ func walkPending(fn *ssa.Function, start ssa.Instruction, cell *ssa.Alloc, T map
 							truth = &t
 						}
 					}
+				case *ssa.Extract:
+					// (failed, err) := helper(): failed is true exactly when err is non-nil
+					if call, isC := y.Tuple.(*ssa.Call); isC {
+						if bi, ei := tupleNilTest(staticCallee(call)); bi >= 0 && bi == y.Index {
+							for v := range T {
+								if ex, isE := v.(*ssa.Extract); isE && ex.Tuple == y.Tuple && ex.Index == ei {
+									t := true
+									truth = &t
+								}
+							}
+						}
+					}
 				case *ssa.Call:
 					if f := staticCallee(y); f != nil {
 						if pi := isNilTestFunc(f); pi >= 0 && pi < len(y.Call.Args) && T[y.Call.Args[pi]] {
@@ -469,4 +481,68 @@ func ruleErrorsNotDiscarded(c *Check, p *Program, rule string, fns []*ssa.Functi
 		}
 	}
 	c.Extra[rule+"_io_calls"] = n
+}
+
+// tupleNilTest recognises module helpers returning (..., bool, ..., error) in
+// which the boolean result is true exactly when the error result is non-nil:
+// at every return the boolean is a nil-test call (such as _State.next) on the
+// very value returned as the error, or a constant that agrees with a constant
+// nil / certainly non-nil error. Returns the two result indexes or (-1, -1).
+func tupleNilTest(f *ssa.Function) (int, int) {
+	if !inModule(f) {
+		return -1, -1
+	}
+	res := f.Signature.Results()
+	bi, ei := -1, -1
+	for i := 0; i < res.Len(); i++ {
+		if b, ok := res.At(i).Type().Underlying().(*types.Basic); ok && b.Kind() == types.Bool {
+			if bi >= 0 {
+				return -1, -1
+			}
+			bi = i
+		}
+		if isErrorType(res.At(i).Type()) {
+			if ei >= 0 {
+				return -1, -1
+			}
+			ei = i
+		}
+	}
+	if bi < 0 || ei < 0 {
+		return -1, -1
+	}
+	ok, n := true, 0
+	allInstrs(f, func(in ssa.Instruction) {
+		r, isR := in.(*ssa.Return)
+		if !isR || len(r.Results) <= bi || len(r.Results) <= ei {
+			return
+		}
+		n++
+		bv, ev := r.Results[bi], r.Results[ei]
+		if k, isK := bv.(*ssa.Const); isK && k.Value != nil && k.Value.Kind() == constant.Bool {
+			if constant.BoolVal(k.Value) {
+				if mayBeNilErr(ev, in.Block()) {
+					ok = false
+				}
+			} else if !isNilConst(ev) {
+				// false with a possibly non-nil error
+				if !hasAtom(atomsOfBlock(in.Block()), "errnil", "", true) {
+					ok = false
+				}
+			}
+			return
+		}
+		if call, isC := bv.(*ssa.Call); isC {
+			if g := staticCallee(call); g != nil {
+				if pi := isNilTestFunc(g); pi >= 0 && pi < len(call.Call.Args) && call.Call.Args[pi] == ev {
+					return
+				}
+			}
+		}
+		ok = false
+	})
+	if !ok || n == 0 {
+		return -1, -1
+	}
+	return bi, ei
 }
